@@ -277,7 +277,7 @@ func substD(expr string, s dstruct) string {
 	return expr
 }
 
-func drawDPkg(t *rapid.T, excl map[string]bool) dpkg {
+func drawDPkg(t *rapid.T, excl map[string]bool, focus string) dpkg {
 	var p dpkg
 	p.monoidInt = true
 	p.intEq10 = rapid.IntRange(0, 3).Draw(t, "overrideEqInt") == 0
@@ -286,6 +286,11 @@ func drawDPkg(t *rapid.T, excl map[string]bool) dpkg {
 	n := rapid.IntRange(1, 3).Draw(t, "nstructs")
 	// recursive=true: only the last struct carries directives, nested structs get their instances implicitly
 	p.recFlag = n >= 2 && rapid.IntRange(0, 2).Draw(t, "recursiveFlag") == 0
+	if focus == "recursive-plain" {
+		// focused shape: recursive=true over plain (non @fp.Value) nested structs
+		n = rapid.IntRange(2, 3).Draw(t, "nstructsFocus")
+		p.recFlag = true
+	}
 	var pkgClasses []string
 	var nested []dty
 	for i := 0; i < n; i++ {
@@ -335,9 +340,21 @@ func drawDPkg(t *rapid.T, excl map[string]bool) dpkg {
 		}
 		nf := rapid.IntRange(1, 6).Draw(t, "nfields")
 		// a plain struct (no @fp.Value) with exported or mixed-visibility fields; never the last struct
-		s.plain = len(s.params) == 0 && i < n-1 && rapid.IntRange(0, 2).Draw(t, "plainStruct") == 0
+		s.plain = len(s.params) == 0 && i < n-1 && (focus == "recursive-plain" || rapid.IntRange(0, 2).Draw(t, "plainStruct") == 0)
 		for j := 0; j < nf; j++ {
 			ft := dCompose(t, rapid.IntRange(0, 2).Draw(t, "depth"), s.classes, base, usable)
+			if focus == "recursive-plain" && i == n-1 && j == 0 && len(usable) > 0 {
+				// the struct carrying the directive uses a nested plain struct (directly, by pointer or in a slice)
+				nd := rapid.SampledFrom(usable).Draw(t, "nestedField")
+				switch rapid.IntRange(0, 2).Draw(t, "nestedWrap") {
+				case 0:
+					ft = nd
+				case 1:
+					ft = dty{expr: "*" + nd.expr, kind: "pointer", caps: nd.caps, nested: nd.nested, lit: func(t *rapid.T) string { return "ptrOf[" + nd.expr + "](" + nd.lit(t) + ")" }}
+				default:
+					ft = dty{expr: "[]" + nd.expr, kind: "slice", caps: nd.caps, nested: nd.nested, lit: func(t *rapid.T) string { return "[]" + nd.expr + "{" + nd.lit(t) + "}" }}
+				}
+			}
 			if ft.expr == "" {
 				ft = base[4] // string supports everything
 			}
@@ -346,6 +363,21 @@ func drawDPkg(t *rapid.T, excl map[string]bool) dpkg {
 				name = strings.ToUpper(name[:1]) + name[1:]
 			}
 			s.fields = append(s.fields, dfield{name: name, t: ft})
+		}
+		// Under recursive=true a nested struct without its own directive resolves to eq.Given[T comparable]
+		// (Go ==) whenever it is comparable: the documented fallback, which is field-wise only for
+		// value-only structs and ignores local overriding instances. To demand field-wise semantics of
+		// nested structs they are made non-comparable (then gombok derives them).
+		if p.recFlag && i < n-1 {
+			for _, c := range s.classes {
+				if c == "Eq" {
+					sl := dty{expr: "[]int", kind: "slice", caps: all, lit: func(t *rapid.T) string {
+						return rapid.SampledFrom([]string{"nil", "[]int{}", "[]int{1}", "[]int{1, 2}"}).Draw(t, "extra")
+					}}
+					s.fields = append(s.fields, dfield{name: "Extra", t: sl})
+					break
+				}
+			}
 		}
 		// recursion through a pointer (not for Monoid: Ptr monoid is out of the grammar; not generic)
 		hasMonoid := false
@@ -713,9 +745,9 @@ func runDerivePackage(p dpkg) (fails []outcome, stage string) {
 const ruleC08 = "package spec drawn from a grammar: 1-3 @fp.Value structs (0-2 type parameters, optional recursion through a pointer, nesting of earlier derived structs), 1-7 fields over the kinds each typeclass package supports (ints, float64, string, bool, []byte, time.Time, Option, fp.Seq, slice, pointer, Go map, fp.Map, Tuple2, nested struct, type parameter), 1-3 @fp.Derive directives per struct out of Eq/Ord/Hashable/Monoid/Clone/Show, optional local overriding instances (EqInt = equality mod 10, OrdInt = descending, MonoidInt = Sum or Product); 5 values per struct (random, one field changed, a suffix changed, random, copy). Pipeline: gombok from the tree under test -> go build -> reflective law test with reference semantics (conjunction / lexicographic / field-wise / deep copy). Non-trivial iff a struct is nested, generic or recursive; distinct by rendered spec"
 
 // DeriveCheck registers the sub-check that runs generated packages with @fp.Derive through gombok.
-func DeriveCheck(t *testing.T, name string, casesPerProcess int) {
+func DeriveCheck(t *testing.T, name string, casesPerProcess int, focus string) {
 	kit.Check(t, name, ruleC08, kit.Opt{Abs: casesPerProcess, HangAfter: 20 * time.Minute}, func(rt *rapid.T, rec *kit.Rec) {
-		p := drawDPkg(rt, ExcludeDerive)
+		p := drawDPkg(rt, ExcludeDerive, focus)
 		if p.excludedKnown {
 			rec.Excluded()
 		}
